@@ -86,6 +86,8 @@ def work_one(job):
             cands = []
             if f.get("vals") is not None:
                 cands.append(f["vals"])
+            if f.get("alt") is not None and f.get("alt") not in cands:
+                cands.append(f["alt"])
             if f.get("sxvals") is not None and f.get("sxvals") not in cands:
                 cands.append(f["sxvals"])
             confirmed = False
